@@ -45,7 +45,7 @@ type decEnv struct {
 	srcA, srcB, dstA, dstB *arena
 	dictA, dictB           map[int][]byte
 	digGo, digNative       uint64
-	outs                   [2][2][]byte
+	outs                   [3][2][]byte
 	noDigest               bool
 }
 
@@ -193,8 +193,8 @@ func (e *decEnv) eval(prop string, k *decCase) *ev.Finding {
 		name string
 		dec  decoder
 	}
-	decs := []named{{"native(" + nativeName() + ")", lz4.VerifDecodeNative}, {"portable", lz4.VerifDecodeGo}}
-	var res [2][2]decRes
+	decs := []named{{"native(" + nativeName() + ")", lz4.VerifDecodeNative}, {"portable", lz4.VerifDecodeGo}, {"UncompressBlockWithDict", apiDecode}}
+	var res [3][2]decRes
 	outs := &e.outs
 	for di, d := range decs {
 		res[di][0] = e.run(d.dec, k, 'A', 0x00)
@@ -296,6 +296,22 @@ func (e *decEnv) eval(prop string, k *decCase) *ev.Finding {
 		}
 	}
 	return nil
+}
+
+// apiDecode goes through the exported entry point (which wraps the build's decoder), so that
+// anything done around the decoder is covered too. An empty source is (0, nil) by contract.
+func apiDecode(dst, src, dict []byte) int {
+	var n int
+	var err error
+	if dict == nil {
+		n, err = lz4.UncompressBlock(src, dst)
+	} else {
+		n, err = lz4.UncompressBlockWithDict(src, dst, dict)
+	}
+	if err != nil {
+		return -1
+	}
+	return n
 }
 
 func nativeName() string {
